@@ -10,6 +10,14 @@ Theorem C05_incremental_upload : forcedTransferEncoding = ["chunked"%string] /\ 
 Proof. split; [reflexivity|split; reflexivity]. Qed.
 Print Assumptions C05_incremental_upload.
 
+(* the reverse proxy in front of the backend is set up with a transport (--force-http2 only), the flush interval and, when
+   the shim script is injected, the splice of the first read as its only response hook: no hook that reads a response
+   before it is relayed *)
+Theorem C05_reverse_proxy_setup :
+  reverseProxySetup = ["Transport = &http2.Transport{...}"; "FlushInterval = 100 * time.Millisecond"; "ModifyResponse = shimFunc"]%string.
+Proof. reflexivity. Qed.
+Print Assumptions C05_reverse_proxy_setup.
+
 (* nothing in the agent puts a deadline, a size limit or a socket option on the way of a response (or a request): the only
    time limits set are the proxy-facing client's -proxy-timeout and the lifetime of session cookies.  The pipeline model below
    has no stage that aborts or withholds by itself; this is where that is checked against the source. *)
